@@ -39,6 +39,22 @@ func (panickySF) SafeFormat(w redact.SafePrinter, verb rune) {
 	panic("psf")
 }
 
+// a Stringer whose panic value panics again while it is printed: the
+// panic propagates out of the (nested) print call, as in fmt
+type panicValue struct{}
+
+func (panicValue) String() string { panic("inner") }
+
+type doublePanicker struct{}
+
+func (doublePanicker) String() string { panic(panicValue{}) }
+
+type sfDoublePanic struct{ s string }
+
+func (x sfDoublePanic) SafeFormat(w redact.SafePrinter, verb rune) {
+	w.Printf("pre %s %v", x.s, doublePanicker{})
+}
+
 type failWriter struct{}
 
 func (failWriter) Write(p []byte) (int, error) { return 0, errors.New("fail") }
@@ -77,6 +93,12 @@ func c12History(k int, s string) {
 		_ = redact.Sprintf("%v", redact.Unsafe(nestedSF{s}))
 	case 14:
 		_ = redact.Sprintf("%v", strings.Repeat("y", 70000))
+	case 16:
+		_ = redact.Sprintf("lit %v", redact.Safe(sfDoublePanic{s}))
+	case 17:
+		_ = redact.Sprintf("lit %v", redact.Unsafe(sfDoublePanic{s}))
+	case 18:
+		_ = redact.Sprintf("%v %+08.3f", s, 2.5)
 	case 15:
 		var b redact.StringBuilder
 		b.Printf("%7.2f %v", 1.5, redact.Safe(s))
@@ -84,7 +106,7 @@ func c12History(k int, s string) {
 	}
 }
 
-const nC12Histories = 16
+const nC12Histories = 19
 
 // c12Probe runs probe k and returns everything observable about it.
 func c12Probe(k int, s string) (out []byte) {
@@ -118,11 +140,19 @@ func c12Probe(k int, s string) (out []byte) {
 			return append([]byte(t), []byte("NOERR")...)
 		}
 		return []byte(t)
+	case 8:
+		return []byte(redact.Sprintfn(func(w redact.SafePrinter) { w.SafeInt(7); w.SafeString("|"); w.SafeUint(42); w.SafeString("|"); w.SafeFloat(1.5); w.UnsafeString(s) }))
+	case 9:
+		var b redact.StringBuilder
+		b.SafeInt(7)
+		b.SafeFloat(0.5)
+		b.Print(s, 3)
+		return []byte(b.RedactableString())
 	}
 	panic("c12Probe")
 }
 
-const nC12Probes = 8
+const nC12Probes = 10
 
 // H_c12: a probe call gives the same result after any history as on a
 // fresh process; sync.Pool is the adversarial model (Get may return any
